@@ -34,6 +34,72 @@ where
     }
 }
 
+/// Byte buffer of fixed capacity `N`. Unlike [`tinyvec::ArrayVec`], whose length is a `u16`, it can
+/// hold more than `u16::MAX` bytes, which HSS signatures with many levels of `LmotsW1` need.
+#[derive(Clone)]
+pub struct ByteBuffer<const N: usize> {
+    data: [u8; N],
+    len: usize,
+}
+
+impl<const N: usize> ByteBuffer<N> {
+    #[inline]
+    pub fn new() -> Self {
+        Self {
+            data: [0u8; N],
+            len: 0,
+        }
+    }
+
+    /// Appends `src`.
+    ///
+    /// # Panics
+    /// If the capacity is exceeded.
+    #[inline]
+    pub fn extend_from_slice(&mut self, src: &[u8]) {
+        let new_len = self.len + src.len();
+        assert!(
+            new_len <= N,
+            "ByteBuffer::extend_from_slice> total length {} exceeds capacity {}!",
+            new_len,
+            N
+        );
+        self.data[self.len..new_len].copy_from_slice(src);
+        self.len = new_len;
+    }
+
+    #[inline]
+    pub fn as_slice(&self) -> &[u8] {
+        &self.data[..self.len]
+    }
+}
+
+impl<const N: usize> Default for ByteBuffer<N> {
+    #[inline]
+    fn default() -> Self {
+        Self::new()
+    }
+}
+
+impl<const N: usize> core::fmt::Debug for ByteBuffer<N> {
+    fn fmt(&self, f: &mut core::fmt::Formatter<'_>) -> core::fmt::Result {
+        f.debug_list().entries(self.as_slice().iter()).finish()
+    }
+}
+
+impl<const N: usize> core::convert::TryFrom<&[u8]> for ByteBuffer<N> {
+    type Error = ();
+
+    fn try_from(src: &[u8]) -> Result<Self, Self::Error> {
+        if src.len() > N {
+            return Err(());
+        }
+        let mut result = Self::new();
+        result.extend_from_slice(src);
+        Ok(result)
+    }
+}
+
 impl<T, const N: usize> ArrayVecZeroize<T, N>
 where
     T: Copy + Default,
